@@ -11,7 +11,7 @@ def sh(cmd, cwd=None):
 out_path = os.path.join(ROOT, "sensitivity", "seed_recheck.json")
 res = json.load(open(out_path)) if os.path.exists(out_path) else {}
 only = set(sys.argv[1:])
-for d in sorted(glob.glob(os.path.join(ROOT, "seeded", "seed-*"))):
+for d in sorted(glob.glob(os.path.join(ROOT, "seeded", "seed*"))):
     name = os.path.basename(d)
     if only and name not in only:
         continue
